@@ -6,6 +6,7 @@ package c15
 import (
 	"fmt"
 	"math/big"
+	"os"
 
 	"verif/engine"
 	"verif/ref/ecref"
@@ -45,7 +46,19 @@ func (Prop) Rule() string {
 		"DNS name constraints, EKU nesting as documented on Verify) with an independent signature verification of each link; the all-valid baselines must verify. " +
 		"Quick tier shrinks only the certificate template alphabets (SAN {none,mixed}, extension level {0,3}, {leaf,noBC,CA pathlen0,CA+name constraints}, key usage {none,all 9 bits}, validity {UTCTime,GeneralizedTime}, serial {1,generated}), " +
 		"uses the smaller substitution sets named above and alters cross-key-type certificates only with the rich template; the topology space is identical in both tiers. " +
-		"distinct_nontrivial counts distinct created objects (template x keys x algorithm) and distinct instantiable PKIs (key assignment x depth x deviation set)."
+		"distinct_nontrivial counts distinct created objects (template x keys x algorithm) and distinct instantiable PKIs (key assignment x depth x deviation set). " +
+		"Widening (cases widen/...): " +
+		"own -- every Create*/Marshal* entry point x signer key type with every slice of the template re-carved {no spare capacity, 1 dirty spare element, 7 dirty spare elements, all byte leaves as one record}: " +
+		"deep snapshot up to capacity of template/parent/lists/public key unchanged, to-be-signed part independent of the layout, same template used three times, returned DER overwritten, template memory overwritten afterwards, same template handed to the next key type; " +
+		"inp -- every Parse*/AppendCertsFromPEM entry point with its input inside a dirty record x 3 capacity classes: result as from a pristine copy, record unchanged, repeat, failing (truncated / wrong key) call then good call; " +
+		"CheckSignature and CheckSignatureWithDigest with signed||signature in both orders from one array, independently computed digest (reference SM3 with ZA, std hashes), every single-bit change of the digest, wrong digest lengths, substituted keys, alternating failing and succeeding checks on the same parsed objects; " +
+		"alter-entry -- the alteration kernel through 11 further acceptors (ParseCertificates first/second, ParseCertificatePEM, Certificate.Verify, low-level CheckSignature, CheckSignatureWithDigest, ParseCertificateRequestPEM, ParseCFCACertificateRequest on plain requests, ParseCRL DER/PEM, ParseDERCRL + CheckCRLSignature); " +
+		"variant -- ECDSA P-224/P-384/P-521 as issuer, subject and requester key x {default, SHA-1, SHA-256, SHA-384, SHA-512} for certificates, requests and revocation lists incl. substitution and alteration; SHA-1 signatures of RSA and P-256; every SignatureAlgorithm value 1..16, SM2-SM3 and unknown values x every key type x 3 object types (refused, or parses + names the algorithm + verifies); " +
+		"*ecdh.PublicKey subject keys (gmsm SM2, crypto/ecdh P-256/384/521, X25519); RawSubject with Printable/UTF8/BMP/T61/Numeric/IA5 strings for CA, leaf, request, CFCA request, revocation list; *smx509.Certificate templates/parents; self-issued certificates; " +
+		"bound -- validity pairs over 16 instants (zero time, 1949/1950, 1968/1969, 1999/2000, 2049/2050 in two zones, 9999, 10000), all 512 key usages, path lengths to 2^31-1, serial and CRL numbers 0..2^255 and negative, reason codes, entry counts, key identifier lengths 1..257, 39 name strings x 4 field groups, subjectAltName shapes and counts to 200, all 14 extended key usages + unknown OIDs with boundary arcs, " +
+		"an extension value of every length in [0,600) and [64700,65560) so that every enclosing header crosses 127/128, 255/256, 65535/65536 (certificates, requests, revocation lists), SM2/P-256 keys with a leading zero byte in X or Y in every role incl. the CFCA temporary key and the enveloped key, 500-1500 signatures per EC key type classified by INTEGER lengths, 20 CFCA passwords; " +
+		"topo+ -- VerifyOptions.KeyUsages (8 values) x full product of 5-8 extended-key-usage sets at every chain position; 61 name constraints of the forms dNSName/rfc822Name/URI/iPAddress (case, hit in second/third place, leading period, mask boundaries) at every CA position x 9 leaf name shapes x MaxConstraintComparisions {0,1,2} and pairs of constraints at two levels; " +
+		"start certificate in the roots pool / named like the root / a CA of the chain; self-issued key rollover with 7 variants; histories on CertPool objects (reuse over 7 times, lazy PEM pools, growth, duplicates in reverse order, Subjects() and returned chains overwritten, Clone then growth on both sides, two PKIs alternately and crossed) with the additional oracle 'same chains as freshly built pools holding the same certificates'."
 }
 
 func (Prop) Assumptions() []string {
@@ -54,8 +67,11 @@ func (Prop) Assumptions() []string {
 		"no claim is made about chains that Certificate.Verify rejects (Go's policy may be stricter than RFC 5280); only returned chains are judged",
 		"RSA keys are eight fixed embedded 2048-bit keys (generation is slow and not reproducible from a stream); SM2/P-256/Ed25519 keys are derived from fixed seeds; signing randomness is engine.DetReader",
 		"MarshalCSRResponse draws from crypto/rand inside the library (no rand parameter); its round trip is compared semantically",
-		"alteration covers the complete TBS TLV and the signature value; the outer SEQUENCE header, the outer AlgorithmIdentifier and the BIT STRING header/unused-bits octet are not altered (not part of the stated property)",
-		"name constraints are exercised for dNSName only; hostname verification (VerifyOptions.DNSName), system roots and platform verifiers are not exercised",
+		"alteration covers the complete TBS TLV, the signature value and the framing of the signature field (BIT STRING tag, length, unused-bits octet); the outer SEQUENCE header and the outer AlgorithmIdentifier are not altered (not part of the stated property)",
+		"name constraints are exercised for dNSName, rfc822Name, URI and iPAddress; where RFC 5280 and common practice differ (a host constraint without leading period against a sub-domain, a constraint of the other IP family, URIs without host name) the model abstains; directoryName constraints are not supported by the library",
+		"hostname verification (VerifyOptions.DNSName), a zero CurrentTime (wall clock), system roots, platform verifiers and the limit of 100 signature checks per verification are not exercised",
+		"objects returned by the parsers alias the input buffer (as in crypto/x509); the harness therefore does not overwrite parsed objects, only DER it received from Create*, pool subjects and returned chain slices",
+		"a T61String is read as Latin-1 only by the certificate/CRL name parser; requests are parsed with encoding/asn1 and are offered no T61String",
 		"dispatch tiers: c-default and c-purego on this amd64 host; arm64/ppc64le/s390x assembly is not covered",
 	}
 }
@@ -111,6 +127,23 @@ func idxs(n int) []int {
 }
 
 func (Prop) Run(c *engine.Ctx) {
+	// development aid (never set by the scripts): C15_ONLY=widen runs only the widening families, C15_ONLY=first only the
+	// first-version families -- used to tell which generation of cases catches a mutant
+	switch os.Getenv("C15_ONLY") {
+	case "widen":
+		runWiden(c)
+		return
+	case "first":
+		runCerts(c)
+		runExplicitAlgs(c)
+		runCSRs(c)
+		runCFCA(c)
+		runCRLs(c)
+		runCSRResponses(c)
+		runAlterations(c)
+		runTopologies(c)
+		return
+	}
 	runCerts(c)
 	runExplicitAlgs(c)
 	runCSRs(c)
@@ -119,6 +152,7 @@ func (Prop) Run(c *engine.Ctx) {
 	runCSRResponses(c)
 	runAlterations(c)
 	runTopologies(c)
+	runWiden(c)
 }
 
 // ---------------------------------------------------------------------------------------------
